@@ -1,0 +1,174 @@
+//go:build verif
+
+// Contracts for package impl (comment-only; compiled only with -tags verif).
+// Checked by /verif (contract-based deductive verification); see /verif/DESIGN.md.
+//
+// The ghost trace of a function is the log of its calls to functions under contract and to
+// external/interface methods (in call order, with arguments and results). `seq`, `only`,
+// `never`, `called`, `all`, `before`, `last`, `ret` are predicates over that log.
+package impl
+
+//@ type manager
+//@   nonnil dataTransferNetwork, validatedTypes, transportConfigurers, pubSub, readySub, channels, transport
+//@   nonnil channelMonitor, transferIDGen, spansIndex, transportOptions, channelSubscriptions
+
+//@ type receiver
+//@   nonnil manager
+//@ type channelEnvironment
+//@   nonnil m
+
+// ---------------------------------------------------------------------------------------------
+// events.go
+
+//@ func (*impl.manager).OnRequestDisconnected {C03,C19}
+//@   ensures [event] seq(Channels.Disconnected) && called(Channels.Disconnected, _, chid, err)
+
+//@ func (*impl.manager).OnChannelCompleted {C01,C03}
+//@   ensures [unknown-channel] ret(GetByID, 1) != nil ==> untouched && result == ret(GetByID, 1)
+//@   ensures [error] completeErr != nil ==> never(SendMessage) && never(Channels.Complete) &&
+//@       never(Channels.BeginFinalizing) && never(Channels.FinishTransfer) && only(GetByID, Channels.Error)
+//@   ensures [error-event] completeErr != nil && ret(GetByID, 1) == nil &&
+//@       ret(GetByID, 0).Status() != datatransfer.Failing && ret(GetByID, 0).Status() != datatransfer.Failed ==>
+//@       seq(Channels.Error) && all(Channels.Error, $1 == chid && errIs($2, completeErr))
+//@   ensures [initiator] completeErr == nil && ret(GetByID, 1) == nil && chid.Initiator == m.peerID ==>
+//@       seq(Channels.FinishTransfer) && called(Channels.FinishTransfer, _, chid) && result == ret(Channels.FinishTransfer, 0)
+//@   ensures [responder-message] completeErr == nil && ret(GetByID, 1) == nil && chid.Initiator != m.peerID ==>
+//@       calls(SendMessage) == 1 && first(SendMessage) && all(SendMessage, $2 == chid.Initiator && $3.IsComplete() && $3.Accepted() &&
+//@           !$3.IsRequest() && $3.IsPaused() == ret(GetByID, 0).RequiresFinalization() && $3.TransferID() == ret(GetByID, 0).TransferID())
+//@   ensures [responder-event] completeErr == nil && ret(GetByID, 1) == nil && chid.Initiator != m.peerID && calls(SendMessage) == 1 && ret(SendMessage, 0) == nil ==>
+//@       (ret(GetByID, 0).RequiresFinalization() ? seq(SendMessage, Channels.BeginFinalizing) && called(Channels.BeginFinalizing, _, chid)
+//@                                              : seq(SendMessage, Channels.Complete) && called(Channels.Complete, _, chid))
+//@   ensures [send-failure] completeErr == nil && ret(GetByID, 1) == nil && chid.Initiator != m.peerID && calls(SendMessage) == 1 && ret(SendMessage, 0) != nil ==>
+//@       seq(SendMessage, manager.OnRequestDisconnected) && called(manager.OnRequestDisconnected, _, chid)
+
+//@ func (*impl.manager).OnResponseReceived {C03,C11,C19,C02}
+//@   requires response != nil
+//@   ensures [cancel] response.IsCancel() ==> seq(Channels.Cancel) && called(Channels.Cancel, _, chid)
+//@   ensures [rejected] !response.IsCancel() && response.IsValidationResult() && !response.Accepted() ==>
+//@       never(Channels.ResponderCompletes) && never(Channels.ResponderBeginsFinalization) && never(Channels.Accept) &&
+//@       (calls(Channels.Error) == 1 ==> last(Channels.Error, $1 == chid && $2 == datatransfer.ErrRejected))
+//@   ensures [rejected-event] !response.IsCancel() && response.IsValidationResult() && !response.Accepted() && response.EmptyVoucherResult() ==>
+//@       seq(Channels.Error)
+//@   ensures [voucher-result-first] !response.IsCancel() && calls(Channels.NewVoucherResult) == 1 ==>
+//@       first(Channels.NewVoucherResult) && response.IsValidationResult() && !response.EmptyVoucherResult() &&
+//@       all(Channels.NewVoucherResult, $1 == chid && $2.Voucher == response.VoucherResult().0 && $2.Type == response.VoucherResultType())
+//@   ensures [complete] !response.IsCancel() && calls(Channels.ResponderCompletes) == 1 ==>
+//@       response.IsComplete() && !response.IsPaused() && last(Channels.ResponderCompletes, $1 == chid) &&
+//@       (response.IsValidationResult() ==> response.Accepted())
+//@   ensures [complete-paused] !response.IsCancel() && calls(Channels.ResponderBeginsFinalization) == 1 ==>
+//@       response.IsComplete() && response.IsPaused() && last(Channels.ResponderBeginsFinalization, $1 == chid)
+//@   ensures [complete-total] !response.IsCancel() && response.IsComplete() && result == nil &&
+//@       (response.IsValidationResult() ==> response.Accepted()) ==>
+//@       (response.IsPaused() ? calls(Channels.ResponderBeginsFinalization) == 1 : calls(Channels.ResponderCompletes) == 1)
+//@   ensures [at-most-one-signal] calls(Channels.ResponderCompletes) + calls(Channels.ResponderBeginsFinalization) <= 1
+//@   ensures [pause-flow] !response.IsCancel() && !response.IsComplete() && response.IsPaused() && calls(manager.pauseOther) == 1 ==>
+//@       last(manager.pauseOther, $1 == chid)
+//@   ensures [stay-paused] calls(manager.resumeOther) == 1 && ret(manager.resumeOther, 0) == nil && calls(GetByID) == 1 &&
+//@       ret(GetByID, 1) == nil && ret(GetByID, 0).SelfPaused() ==> result == datatransfer.ErrPause
+//@   ensures [resume-flow] calls(manager.resumeOther) == 1 ==> !response.IsPaused() && !response.IsComplete() && all(manager.resumeOther, $1 == chid)
+
+// ---------------------------------------------------------------------------------------------
+// utils.go
+
+//@ func (*impl.manager).resume {C11}
+//@   ensures [role] (chid.Initiator == m.peerID) ? seq(Channels.ResumeInitiator) && called(Channels.ResumeInitiator, _, chid)
+//@                                              : seq(Channels.ResumeResponder) && called(Channels.ResumeResponder, _, chid)
+//@ func (*impl.manager).pause {C11}
+//@   ensures [role] (chid.Initiator == m.peerID) ? seq(Channels.PauseInitiator) && called(Channels.PauseInitiator, _, chid)
+//@                                              : seq(Channels.PauseResponder) && called(Channels.PauseResponder, _, chid)
+//@ func (*impl.manager).resumeOther {C11}
+//@   ensures [role] (chid.Responder == m.peerID) ? seq(Channels.ResumeInitiator) && called(Channels.ResumeInitiator, _, chid)
+//@                                              : seq(Channels.ResumeResponder) && called(Channels.ResumeResponder, _, chid)
+//@ func (*impl.manager).pauseOther {C11}
+//@   ensures [role] (chid.Responder == m.peerID) ? seq(Channels.PauseInitiator) && called(Channels.PauseInitiator, _, chid)
+//@                                              : seq(Channels.PauseResponder) && called(Channels.PauseResponder, _, chid)
+//@ func (*impl.manager).resumeMessage {C11}
+//@   ensures [kind] untouched && result.IsRequest() == (chid.Initiator == m.peerID) && result.IsUpdate() && !result.IsPaused() && result.TransferID() == chid.ID
+//@ func (*impl.manager).pauseMessage {C11}
+//@   ensures [kind] untouched && result.IsRequest() == (chid.Initiator == m.peerID) && result.IsUpdate() && result.IsPaused() && result.TransferID() == chid.ID
+//@ func (*impl.manager).cancelMessage {C09}
+//@   ensures [kind] untouched && result.IsRequest() == (chid.Initiator == m.peerID) && result.IsCancel() && result.TransferID() == chid.ID
+
+// ---------------------------------------------------------------------------------------------
+// receiving_requests.go
+
+//@ func (*impl.manager).requestError {C04}
+//@   pure
+//@   ensures [no-effect] untouched
+//@   ensures [mapping] result0 == (resultErr != nil ? resultErr :
+//@       (!result.Accepted ? datatransfer.ErrRejected : (stayPaused ? datatransfer.ErrPause : nil)))
+
+//@ func (*impl.manager).acceptRequest {C04,C18,C05}
+//@   requires incoming != nil
+//@   after Registry.Processor [registry-typed] $0 == m.validatedTypes && $r1 ==> implements($r0, datatransfer.RequestValidator)
+//@   after Registry.Processor [configurer-typed] $0 == m.transportConfigurers && $r1 ==> dyntype_is($r0, datatransfer.TransportConfigurer) && $r0.(datatransfer.TransportConfigurer) != nil
+//@   ensures [gate] calls(Channels.CreateNew) >= 1 ==> calls(RequestValidator.Validate*) == 1 && calls(Channels.CreateNew) == 1 &&
+//@       before(RequestValidator.Validate*, Channels.CreateNew) && ret(RequestValidator.Validate*, 1) == nil && ret(RequestValidator.Validate*, 0).Accepted
+//@   ensures [validated-kind] incoming.IsPull() ? never(RequestValidator.ValidatePush) : never(RequestValidator.ValidatePull)
+//@   ensures [validated-args] all(RequestValidator.Validate*, $1 == chid && $2 == chid.Initiator && $4 == incoming.BaseCid())
+//@   ensures [unregistered] calls(Registry.Processor) >= 1 && !ret(Registry.Processor, 1) ==> err != nil && !result0.Accepted && untouched
+//@   ensures [malformed] calls(Registry.Processor) == 0 ==> err != nil && !result0.Accepted && untouched
+//@   ensures [not-accepted] calls(RequestValidator.Validate*) == 1 && (ret(RequestValidator.Validate*, 1) != nil || !ret(RequestValidator.Validate*, 0).Accepted) ==>
+//@       last(RequestValidator.Validate*) && err == ret(RequestValidator.Validate*, 1) && result0 == ret(RequestValidator.Validate*, 0)
+//@   ensures [result-is-validators] calls(RequestValidator.Validate*) == 1 && err == nil ==> result0 == ret(RequestValidator.Validate*, 0)
+//@   ensures [refused] calls(Channels.CreateNew) == 1 && ret(Channels.CreateNew, 1) != nil ==> last(Channels.CreateNew) && err != nil
+//@   ensures [created-as] all(Channels.CreateNew, $1 == m.peerID && $2 == incoming.TransferID() && $3 == incoming.BaseCid() && $6 == chid.Initiator &&
+//@       (incoming.IsPull() ? $7 == m.peerID && $8 == chid.Initiator : $7 == chid.Initiator && $8 == m.peerID))
+//@   ensures [opened-then-accepted] err == nil && result0.Accepted ==> calls(Channels.CreateNew) == 1 && before(Channels.CreateNew, Channels.Open) && before(Channels.Open, Channels.Accept) &&
+//@       called(Channels.Open, _, chid) && called(Channels.Accept, _, chid) && before(Channels.Accept, manager.recordAcceptedValidationEvents)
+//@   ensures [records-validation] err == nil && result0.Accepted ==> calls(manager.recordAcceptedValidationEvents) == 1 &&
+//@       all(manager.recordAcceptedValidationEvents, $2 == ret(RequestValidator.Validate*, 0))
+
+//@ func (*impl.manager).receiveNewRequest {C04}
+//@   requires incoming != nil
+//@   ensures [validated] seq(manager.acceptRequest) && called(manager.acceptRequest, _, chid, incoming)
+//@   ensures [reply] result0 != nil ==> result0.IsNew() && !result0.IsRequest() && result0.TransferID() == incoming.TransferID() &&
+//@       result0.Accepted() == (ret(manager.acceptRequest, 1) == nil && ret(manager.acceptRequest, 0).Accepted) &&
+//@       result0.IsPaused() == ret(manager.acceptRequest, 0).ForcePause
+//@   ensures [reply-voucher-result] result0 != nil && ret(manager.acceptRequest, 0).VoucherResult != nil ==>
+//@       result0.VoucherResultType() == (*ret(manager.acceptRequest, 0).VoucherResult).Type &&
+//@       result0.VoucherResult().0 == (*ret(manager.acceptRequest, 0).VoucherResult).Voucher
+//@   ensures [error] result0 != nil ==> err == (ret(manager.acceptRequest, 1) != nil ? ret(manager.acceptRequest, 1) :
+//@       (!ret(manager.acceptRequest, 0).Accepted ? datatransfer.ErrRejected : (ret(manager.acceptRequest, 0).ForcePause ? datatransfer.ErrPause : nil)))
+
+//@ func (*impl.manager).recordRejectedValidationEvents {C04,C19,C08}
+//@   ensures [result-then-error] result.VoucherResult != nil ==> first(Channels.NewVoucherResult, $1 == chid && $2 == *result.VoucherResult)
+//@   ensures [error-event] (result.VoucherResult == nil || calls(Channels.NewVoucherResult) == 1 && ret(Channels.NewVoucherResult, 0) == nil) ==>
+//@       last(Channels.Error, $1 == chid && $2 == datatransfer.ErrRejected) && calls(Channels.Error) == 1
+//@   ensures [nothing-else] only(Channels.NewVoucherResult, Channels.Error)
+
+//@ func (*impl.manager).recordAcceptedValidationEvents {C08,C04,C19,C11}
+//@   requires chst != nil
+//@   ensures [only] only(Channels.NewVoucherResult, Channels.SetDataLimit, Channels.SetRequiresFinalization, Channels.PauseResponder, Channels.ResumeResponder)
+//@   ensures [same-channel] all(Channels.NewVoucherResult, $1 == chst.ChannelID()) && all(Channels.SetDataLimit, $1 == chst.ChannelID()) &&
+//@       all(Channels.SetRequiresFinalization, $1 == chst.ChannelID()) && all(Channels.PauseResponder, $1 == chst.ChannelID()) &&
+//@       all(Channels.ResumeResponder, $1 == chst.ChannelID())
+//@   ensures [order] before(Channels.NewVoucherResult, Channels.SetDataLimit) || calls(Channels.NewVoucherResult) == 0
+//@   ensures [limit] err == nil ==> (calls(Channels.SetDataLimit) == 1) == (result.DataLimit != chst.DataLimit()) &&
+//@       all(Channels.SetDataLimit, $2 == result.DataLimit)
+//@   ensures [finalization] err == nil ==> (calls(Channels.SetRequiresFinalization) == 1) == (result.RequiresFinalization != chst.RequiresFinalization()) &&
+//@       all(Channels.SetRequiresFinalization, $2 == result.RequiresFinalization)
+//@   ensures [voucher-result] err == nil ==> (calls(Channels.NewVoucherResult) == 1) == (result.VoucherResult != nil && (*result.VoucherResult).Voucher != nil) &&
+//@       all(Channels.NewVoucherResult, $2 == *result.VoucherResult)
+//@   ensures [pause-rule] err == nil ==> (calls(Channels.PauseResponder) == 1) == (result.LeaveRequestPaused(chst) && !chst.ResponderPaused()) &&
+//@       (calls(Channels.ResumeResponder) == 1) == (!result.LeaveRequestPaused(chst) && chst.ResponderPaused())
+//@   ensures [pause-last] calls(Channels.PauseResponder) + calls(Channels.ResumeResponder) == 1 ==> (last(Channels.PauseResponder) || last(Channels.ResumeResponder))
+
+//@ func (*impl.manager).validateRestart {C04,C10}
+//@   requires chst != nil
+//@   after Registry.Processor [registry-typed] $0 == m.validatedTypes && $r1 ==> implements($r0, datatransfer.RequestValidator)
+//@   ensures [revalidates] seq(RequestValidator.ValidateRestart) && all(RequestValidator.ValidateRestart, $1 == chst.ChannelID() && $2 == chst)
+//@   ensures [verbatim] result0 == ret(RequestValidator.ValidateRestart, 0) && err == ret(RequestValidator.ValidateRestart, 1)
+
+//@ func (*impl.manager).processUpdateVoucher {C19,C05}
+//@   requires request != nil
+//@   ensures [records] err == nil ==> seq(Channels.NewVoucher) && all(Channels.NewVoucher, $1 == chid && $2 == request.TypedVoucher().0)
+//@   ensures [malformed] request.TypedVoucher().1 != nil ==> untouched && err != nil
+
+//@ func (*impl.manager).receiveUpdateRequest {C11}
+//@   requires request != nil
+//@   ensures [pause] request.IsPaused() ==> seq(manager.pauseOther) && called(manager.pauseOther, _, chid)
+//@   ensures [resume] !request.IsPaused() ==> first(manager.resumeOther, $1 == chid) && never(manager.pauseOther)
+//@   ensures [stay-paused] !request.IsPaused() && calls(manager.resumeOther) == 1 && ret(manager.resumeOther, 0) == nil && calls(GetByID) == 1 && ret(GetByID, 1) == nil &&
+//@       ret(GetByID, 0).SelfPaused() ==> err == datatransfer.ErrPause
+//@   ensures [resumed] !request.IsPaused() && err == nil ==> calls(GetByID) == 1 && !ret(GetByID, 0).SelfPaused()
